@@ -47,7 +47,7 @@ func genC09(t *rapid.T) *c09Scenario {
 			s.Methods = append(s.Methods, rapid.IntRange(0, 4).Draw(t, "method"))
 		}
 		for k := rapid.IntRange(1, 3).Draw(t, "np"); k > 0; k-- {
-			s.PayLens = append(s.PayLens, rapid.SampledFrom([]int{0, 1, 10, 80, 400}).Draw(t, "paylen"))
+			s.PayLens = append(s.PayLens, rapid.SampledFrom([]int{0, 1, 10, 80, 400, 505, 520, 1000, 5000}).Draw(t, "paylen"))
 		}
 		sc.Senders = append(sc.Senders, s)
 	}
@@ -60,9 +60,13 @@ func genC09(t *rapid.T) *c09Scenario {
 // c09Line is the exact wire line sender g's i-th call must produce.
 func c09Line(g, i int, s *c09Sender) (wire string, call func(c *client.Conn)) {
 	pl := s.PayLens[i%len(s.PayLens)]
+	method := s.Methods[i%len(s.Methods)]
+	if pl > 400 && method != 0 {
+		pl = 400 // the splitting methods would cut a longer text (C11's subject); Raw takes any length
+	}
 	pay := strings.Repeat(string(rune('a'+g%26)), pl)
 	id := fmt.Sprintf("S%d.%d", g, i)
-	switch s.Methods[i%len(s.Methods)] {
+	switch method {
 	case 1:
 		return "PRIVMSG #c" + id + " :" + pay, func(c *client.Conn) { c.Privmsg("#c"+id, pay) }
 	case 2:
